@@ -101,7 +101,8 @@ def run(tier):
     c.rule = ("table walk: every operation path up to depth D of the bounded TLA+ model replayed into the real "
               "container (ASan), then every model state (pair of states for two instances) reached along a shortest path "
               "and every operation applied there followed by every suffix of <= 1-2 operations (transition coverage at any "
-              "depth); random histories of 5..400 calls over 1..8 keys incl. swap; distinct = "
+              "depth); random histories of 5..400 calls over 1..8 keys incl. swap; move / copy / argument-aliasing "
+              "variants of insert rotate, values shifted onto the keys; distinct = "
               "(operation, container occupancy class, result class) combinations seen in random histories")
     c.exhaustive = True
     c.assumptions = ["projection reads head/tail/prev/next through a derived class",
